@@ -116,28 +116,60 @@ class _Consume(MustFlow):
 
 
 def _consumed_after(fi, stmt, name):
-    """On every path from `stmt` to the end of its block (or a return) the object is handed to
-    a call (append / recursion) or returned.  -> '' or a description of the escaping path."""
-    block = None
-    for n in ast.walk(fi.node):
-        for fld in ('body', 'orelse', 'finalbody'):
-            lst = getattr(n, fld, None)
-            if isinstance(lst, list) and any(s is stmt for s in lst):
-                block = lst
-    if block is None:
-        raise AnalysisError('%s: enclosing block of the split site not found' % fi.fq)
-    idx = [i for i, s in enumerate(block) if s is stmt][0]
-    fl = _Consume(name)
-    o = fl.walk(block[idx + 1:], frozenset())
-    if o.normal is not None and 'consumed' not in o.normal:
-        return 'is built but not stored / passed on before the end of its block'
-    for st, node in o.returns:
-        if st is None or 'consumed' in st:
+    """After it is built, the half flows -- directly, through a container / tuple / loop variable it
+    was put into, or through an alias -- into a call argument (append, extend, recursion), an
+    augmented assignment of a list, or a returned value.  Flow-insensitive over the statements that
+    follow the construction in source order; '' when such a sink exists."""
+    # document order (not line numbers: inlined helper bodies keep the lines of the helper)
+    seq = []
+
+    def dfs(n):
+        seq.append(n)
+        for c in ast.iter_child_nodes(n):
+            if not isinstance(c, (ast.FunctionDef, ast.AsyncFunctionDef, ast.ClassDef, ast.Lambda)):
+                dfs(c)
+    dfs(fi.node)
+    pos = [i for i, n in enumerate(seq) if n is stmt]
+    if not pos:
+        raise AnalysisError('%s: split site not found in its function' % fi.fq)
+    later = seq[pos[0]:]
+    derived = {name}
+    for _ in range(5):
+        grew = False
+        for n in later:
+            tgt = None
+            if isinstance(n, ast.Assign) and any(isinstance(x, ast.Name) and x.id in derived for x in ast.walk(n.value)):
+                # x = [half, ..] / (half, ..) / half / f(half): only containers and aliases carry the object
+                if isinstance(n.value, (ast.Name, ast.List, ast.Tuple, ast.Set, ast.Starred, ast.ListComp, ast.BinOp)):
+                    tgt = n.targets
+            elif isinstance(n, ast.For) and any(isinstance(x, ast.Name) and x.id in derived for x in ast.walk(n.iter)):
+                tgt = [n.target]
+            elif isinstance(n, ast.comprehension) and any(isinstance(x, ast.Name) and x.id in derived
+                                                          for x in ast.walk(n.iter)):
+                tgt = [n.target]
+            for t in tgt or []:
+                for x in ast.walk(t):
+                    if isinstance(x, ast.Name) and x.id not in derived:
+                        derived.add(x.id)
+                        grew = True
+        if not grew:
+            break
+    for n in later:
+        if n is stmt:
             continue
-        if node.value is not None and any(isinstance(x, ast.Name) and x.id == name for x in ast.walk(node.value)):
-            continue
-        return 'is dropped by `%s`' % ntext(node)[:40]
-    return ''
+        if isinstance(n, ast.Call):
+            cn = ntext(n.func)
+            if cn in ('isinstance', 'len', 'print', 'type'):
+                continue
+            args = list(n.args) + [k.value for k in n.keywords]
+            if any(isinstance(x, ast.Name) and x.id in derived for a in args for x in ast.walk(a)):
+                return ''
+        if isinstance(n, ast.AugAssign) and any(isinstance(x, ast.Name) and x.id in derived for x in ast.walk(n.value)):
+            return ''
+        if isinstance(n, ast.Return) and n.value is not None and \
+                any(isinstance(x, ast.Name) and x.id in derived for x in ast.walk(n.value)):
+            return ''
+    return 'is built but never stored, passed on or returned afterwards'
 
 
 def run(repo):
